@@ -39,6 +39,14 @@ def expr_src(e, nm):
         return f"{A} > {c}"
     if op == "call":
         return f"h({A})"
+    if op == "modc":
+        return f"{A} % {c}"
+    if op == "neg":
+        return f"-{A}"
+    if op == "call2":
+        return f"g({A}, {c}, {B})"
+    if op == "idx":
+        return f"op.Squeeze(v[{c}:{c + 1}])"
     if op == "attr":
         return f"{A} * alpha"
     raise ValueError(op)
@@ -85,7 +93,11 @@ def program_src(prog, ret, scheme=0, fname="f"):
     lines = ["from typing import Tuple", "from onnxscript import script, INT64, BOOL", "from onnxscript import opset18 as op", ""]
     if uses(prog, "call"):
         lines += ["@script(default_opset=op)", "def h(u: INT64) -> INT64:", "    return u * 2 + 1", ""]
+    if uses(prog, "call2"):
+        lines += ["@script(default_opset=op)", "def g(x: INT64, k: int, y: INT64) -> INT64:", "    return x * k + y", ""]
     params = f"{nm['a']}: INT64, {nm['n']}: INT64"
+    if uses(prog, "idx"):
+        params += ", v: INT64[3]"
     if uses(prog, "attr"):
         params += ", alpha: int = 2"
     rt = "INT64" if len(ret) == 1 else "Tuple[" + ", ".join(["INT64"] * len(ret)) + "]"
@@ -128,7 +140,7 @@ def call_model(fn):
     node = helper.make_node(fp.name, list(fp.input), [f"o{i}" for i in range(len(fp.output))], domain=fp.domain)
     g = helper.make_graph(
         [node], "caller",
-        [helper.make_tensor_value_info(i, TensorProto.INT64, []) for i in fp.input],
+        [helper.make_tensor_value_info(i, TensorProto.INT64, [3] if i == "v" else []) for i in fp.input],
         [helper.make_tensor_value_info(f"o{i}", TensorProto.INT64, None) for i in range(len(fp.output))],
     )
     ops = {(o.domain, o.version) for o in fp.opset_import} | {(fp.domain, 1)}
